@@ -92,7 +92,8 @@ def healpix_case(draw, tier, mode):
         centres = [draw(st.one_of(st.integers(0, 60), st.integers(npix - 60, npix - 1), st.integers(0, npix - 1))) for _ in range(n)]
     bcast = draw(st.integers(0, 3)) == 0
     return {'what': 'healpix', 'nside': nside, 'theta': theta, 'phi': phi, 'coverage': draw(st.booleans()),
-            'rep': draw(st.integers(1, 5)), 'centres': centres, 'bcast': bcast, 'k': draw(st.integers(1, 3))}
+            'rep': draw(st.integers(1, 5)), 'centres': centres, 'bcast': bcast, 'k': draw(st.integers(1, 3)),
+            'f32_landscape': draw(st.booleans())}
 
 
 def strategy(tier, mode):
@@ -227,9 +228,12 @@ def check(recipe, mode):
         phi = np.asarray(np.asarray(recipe['phi'], dtype=fdt), dtype=np.float64)
     theta = np.clip(theta, 0.0, math.pi)
     # (world2pixel is jitted with the landscape as a static argument: reuse instances to avoid recompiling)
-    key = (nside, fdt)
+    # the dtype of the map VALUES is independent of the precision of the pointing: float32 maps are also used with
+    # 64-bit mode on (float64 angles)
+    ldt = np.float32 if (x64 and recipe.get('f32_landscape')) else fdt
+    key = (nside, ldt)
     if key not in _HP_CACHE:
-        _HP_CACHE[key] = HealpixLandscape(nside, 'I', fdt)
+        _HP_CACHE[key] = HealpixLandscape(nside, 'I', ldt)
     land = _HP_CACHE[key]
     if land.shape != (12 * nside ** 2,) or land.nside != nside:
         raise Violation('landscape-bookkeeping', f'nside {nside}: shape {land.shape}')
@@ -248,6 +252,8 @@ def check(recipe, mode):
     if (got < 0).any() or (got >= 12 * nside ** 2).any():
         raise Violation('world2index-range', 'index outside 0..npix-1')
     classes = ['healpix', f'nside:{nside}', 'all_robust' if robust.all() else 'some_non_robust']
+    if x64 and recipe.get('f32_landscape'):
+        classes.append('float32_landscape_with_x64')
     if recipe.get('centres'):
         classes.append('pixel_centres')
     if recipe['coverage'] and recipe.get('bcast') and nside <= 64:
